@@ -1,4 +1,4 @@
-import FpgoVerif.Proofs.C01Lemmas
+import FpgoVerif.Proofs.C01Clone
 import FpgoVerif.Gen.MaybeInventory
 /-! Property theorems for C01 — "Maybe: one consistent notion of absence, monad laws, total (never panics)".
 
@@ -22,19 +22,9 @@ def ObsEq (h : Heap) (m m' : MaybeV) : Prop :=
   m.unwrapInterface = m'.unwrapInterface ∧ m.type = m'.type ∧
   (∀ c ∈ allConversions, m.conv c = m'.conv c) ∧ m.toStr h = m'.toStr h
 
-theorem ObsEq.rfl' (h : Heap) (m : MaybeV) : ObsEq h m m := ⟨rfl, rfl, fun _ => rfl, fun _ _ => rfl, rfl, rfl, fun _ _ => rfl, rfl⟩
-
-/-- `v` is a legal value of the static type `T` (what the Go type checker guarantees for `JustGenerics[T](v)`) -/
-def HasTy (T : Ty) (v : GoVal) : Prop :=
-  implementsTy T v = true ∨ (v = .nil ∧ (T = .any ∨ ∃ U, T = .maybe U))
-
-/-- a cell of type `t` holds: a value of dynamic type `t`, or — `t` an interface type — nil or a value implementing `t` -/
-def PointeeOK (t : Ty) (x : GoVal) : Prop :=
-  if isIfaceTy t then (x = .nil ∨ implementsTy t x = true) else typeOf? x = some t
-
-/-- a non-nil pointer points to a live cell holding a value of its element type -/
-def WF (h : Heap) (v : GoVal) : Prop :=
-  ∀ t a, v = .ptr t (some a) → ∃ x, h[a]? = some x ∧ PointeeOK t x
+/-! The hypotheses `HasTy` (the value is well typed for `JustGenerics[T]`), `PointeeOK` and `WF` (a non-nil pointer
+    points to a live cell of its element type) used by `C01_clone` / `C01_total` are defined in
+    `Proofs/C01Clone.lean` (the helper lemmas about `Clone`/`CloneTo`/`ToPtr` need them); non-vacuity examples below. -/
 
 /-! ### one notion of absence -/
 
@@ -153,7 +143,7 @@ theorem C01_right_identity (c c' : Ctor) (v : GoVal) (hp : c'.param = c.param) :
       have hw : wrapped c v = v := by cases c <;> simp [wrapped, hab]
       have hb : built c' v = built c v := by
         cases c <;> cases c' <;> simp_all [built, Ctor.param]
-      rw [hw, hb]; exact fun h => ObsEq.rfl' h _
+      rw [hw, hb]; exact fun h => ⟨rfl, rfl, fun _ => rfl, fun _ _ => rfl, rfl, rfl, fun _ _ => rfl, rfl⟩
     · have hw : absent (wrapped c v) = true := by
         cases c with
         | just => simp only [wrapped, hab]; rfl
@@ -220,35 +210,6 @@ example :
 
 /-! ### Clone -/
 
-theorem implementsTy_ptr (T t : Ty) (a b : Option Nat) : implementsTy T (.ptr t a) = implementsTy T (.ptr t b) := by
-  have hn : ∀ a, (GoVal.ptr t a != GoVal.nil) = true := by intro a; simp
-  cases T <;> simp [implementsTy, typeOf?, hn]
-
-/-- cloning a Maybe whose value is not a non-nil pointer returns the very same Maybe and touches nothing -/
-theorem clone_nonptr (c : Ctor) (v : GoVal) (h : Heap) (hty : HasTy c.param v) (hnp : ∀ t a, v ≠ .ptr t (some a)) :
-    (built c v).clone h = .ok (h, built c v) := by
-  cases hab : absent v
-  · have hne : v ≠ .nil := not_absent_ne_nil hab
-    have himp : implementsTy c.param v = true := by
-      rcases hty with h1 | ⟨h1, _⟩
-      · exact h1
-      · exact absurd h1 hne
-    have hb : built c v = .some c.param v false true := by cases c <;> simp [built, hab, Ctor.param]
-    rw [hb]
-    cases v with
-    | nil => exact absurd rfl hne
-    | ptr t p =>
-      cases p with
-      | none => simp [absent] at hab
-      | some a => exact absurd rfl (hnp t a)
-    | _ =>
-      simp [MaybeV.clone, cloneTo, MaybeV.isNil, MaybeV.unwrap, valueOf, RV.kind, kindOf, RV.interface, assertTy, himp,
-        justGenerics_eq, hab, bind, Except.bind, pure, Except.pure]
-  · cases c with
-    | just => simp [built, hab, MaybeV.clone, pure, Except.pure]
-    | generics T =>
-      simp [built, hab, MaybeV.clone, cloneTo, MaybeV.isNil, MaybeV.unwrap, justGenerics_eq, bind, Except.bind, pure, Except.pure]
-
 /-- `Clone` never panics and returns an equal Maybe: the very same Maybe when `v` is not a non-nil pointer; when it
     is, the Maybe built from a *fresh* pointer — an address distinct from `v`'s and from every address in use —
     whose target is an equal copy of `v`'s target (so IsNil/IsPresent/Type/conversions coincide and ToString coincides
@@ -311,9 +272,9 @@ theorem C01_clone (c : Ctor) (v : GoVal) (h : Heap) (hty : HasTy c.param v) (hwf
     cases v with
     | ptr t p =>
       cases p with
-      | none => exact ⟨rfl, rfl, ObsEq.rfl' _ _⟩
+      | none => exact ⟨rfl, rfl, ⟨rfl, rfl, fun _ => rfl, fun _ _ => rfl, rfl, rfl, fun _ _ => rfl, rfl⟩⟩
       | some a => exact absurd rfl (hnp t a)
-    | _ => exact ⟨rfl, rfl, ObsEq.rfl' _ _⟩
+    | _ => exact ⟨rfl, rfl, ⟨rfl, rfl, fun _ => rfl, fun _ _ => rfl, rfl, rfl, fun _ _ => rfl, rfl⟩⟩
 
 /-- non-vacuity: a heap with one int cell and a pointer to it satisfy the hypotheses, for both constructors -/
 example : HasTy (Ctor.generics (.ptr (.int .int))).param (.ptr (.int .int) (some 0)) ∧ HasTy Ctor.just.param (.ptr (.int .int) (some 0))
@@ -325,117 +286,6 @@ example : WF [.int .int 7, .nil] (.ptr .any (some 0)) ∧ WF [.int .int 7, .nil]
   ⟨fun t a e => by cases e; exact ⟨_, rfl, Or.inr rfl⟩, fun t a e => by cases e; exact ⟨_, rfl, Or.inl rfl⟩⟩
 
 /-! ### totality -/
-
-theorem built_param (c : Ctor) (v : GoVal) : (built c v).param = c.param := by
-  cases c with
-  | just => cases hab : absent v <;> simp [built, hab, MaybeV.param, Ctor.param]
-  | generics T => rfl
-
-theorem toPtr_ok (c : Ctor) (v : GoVal) (h : Heap) (hwf : WF h v) : ∃ r, (built c v).toPtr h = .ok r := by
-  cases hab : absent v
-  · have hb : built c v = .some c.param v false true := by cases c <;> simp [built, hab, Ctor.param]
-    rw [hb]
-    cases v with
-    | ptr t p =>
-      cases p with
-      | none => simp [absent] at hab
-      | some a =>
-        obtain ⟨x, hx, _⟩ := hwf t a rfl
-        cases hif : isIfaceTy t <;>
-        · simp only [MaybeV.toPtr, fpIsPtr, fpKind, valueOf, RV.kind, kindOf, indirect, RV.elem, hx, hif, RV.interface, bind,
-            Except.bind, pure, Except.pure, Bool.not_false, Bool.and_true, decide_true, if_true, Bool.false_eq_true, if_false]
-          split
-          · exact ⟨_, rfl⟩
-          · split <;> exact ⟨_, rfl⟩
-    | _ => exact ⟨_, rfl⟩
-  · cases c with
-    | just => simp [built, hab, MaybeV.toPtr, pure, Except.pure]
-    | generics T => simp [built, hab, MaybeV.toPtr, pure, Except.pure]
-
-/-- `CloneTo` of a Maybe whose value is not a non-nil pointer never looks at the destination -/
-theorem cloneTo_nonptr (c : Ctor) (v d : GoVal) (h : Heap) (hty : HasTy c.param v) (hnp : ∀ t a, v ≠ .ptr t (some a)) :
-    ∃ r, cloneTo h c.param (built c v) d = .ok r := by
-  cases hab : absent v
-  · have hne : v ≠ .nil := not_absent_ne_nil hab
-    have himp : implementsTy c.param v = true := by
-      rcases hty with h1 | ⟨h1, _⟩
-      · exact h1
-      · exact absurd h1 hne
-    have hb : built c v = .some c.param v false true := by cases c <;> simp [built, hab, Ctor.param]
-    rw [hb]
-    cases v with
-    | nil => exact absurd rfl hne
-    | ptr t p =>
-      cases p with
-      | none => simp [absent] at hab
-      | some a => exact absurd rfl (hnp t a)
-    | _ =>
-      simp [cloneTo, MaybeV.isNil, MaybeV.unwrap, valueOf, RV.kind, kindOf, RV.interface, assertTy, himp,
-        justGenerics_eq, bind, Except.bind, pure, Except.pure]
-  · cases c with
-    | just => simp [built, hab, cloneTo, MaybeV.isNil, MaybeV.unwrap, justGenerics_eq, bind, Except.bind, pure, Except.pure]
-    | generics T =>
-      simp [built, hab, cloneTo, MaybeV.isNil, MaybeV.unwrap, justGenerics_eq, bind, Except.bind, pure, Except.pure]
-
-/-- `CloneTo` of a non-nil pointer into any destination of the same static type: nil / not a pointer (a fresh copy is
-    returned) or a live pointer of the same pointer type (the copy is written through it) -/
-theorem cloneTo_ptr_ok (T t : Ty) (a : Nat) (h : Heap) (d x : GoVal) (hx : h[a]? = some x) (hok : PointeeOK t x)
-    (himp : implementsTy T (.ptr t (some a)) = true) (hwd : WF h d)
-    (hsame : ∀ t' b, d = .ptr t' (some b) → t' = t) :
-    ∃ r, cloneTo h T (.some T (.ptr t (some a)) false true) d = .ok r := by
-  have ha : a < h.length := by
-    rcases Nat.lt_or_ge a h.length with h1 | h1
-    · exact h1
-    · rw [List.getElem?_eq_none h1] at hx; cases hx
-  have himp' : implementsTy T (.ptr t (some h.length)) = true := by
-    rw [implementsTy_ptr _ _ _ (some a)]; exact himp
-  cases hif : isIfaceTy t
-  · -- pointer to a variable of a concrete type
-    have hxt : typeOf? x = some t := by simpa [PointeeOK, hif] using hok
-    have hz : typeOf? (zeroOf t) = some t := by
-      cases x <;> simp [typeOf?] at hxt <;> subst hxt <;> rfl
-    cases d with
-    | ptr t' p =>
-      cases p with
-      | none =>
-        simp [cloneTo, MaybeV.isNil, MaybeV.unwrap, valueOf, RV.kind, kindOf, RV.elem, hx, hif, RV.type, hxt, rvNew, RV.set, hz,
-          RV.isNil, RV.interface, assertTy, himp', justGenerics_eq, bind, Except.bind, pure, Except.pure]
-      | some b =>
-        obtain ⟨y, hy, hyok⟩ := hwd t' b rfl
-        have ht' : t' = t := hsame t' b rfl
-        subst ht'
-        have hyt : typeOf? y = some t' := by simpa [PointeeOK, hif] using hyok
-        have hb : b < h.length := by
-          rcases Nat.lt_or_ge b h.length with h1 | h1
-          · exact h1
-          · rw [List.getElem?_eq_none h1] at hy; cases hy
-        have hfr' : (h ++ [x])[b]? = some y := by rw [List.getElem?_append_left hb]; exact hy
-        simp [cloneTo, MaybeV.isNil, MaybeV.unwrap, valueOf, RV.kind, kindOf, RV.elem, hx, hif, RV.type, hxt, rvNew, RV.set, hz,
-          RV.isNil, hfr', hyt, justGenerics_eq, bind, Except.bind, pure, Except.pure]
-    | _ =>
-      simp [cloneTo, MaybeV.isNil, MaybeV.unwrap, valueOf, RV.kind, kindOf, RV.elem, hx, hif, RV.type, hxt, rvNew, RV.set, hz,
-        RV.isNil, RV.interface, assertTy, himp', justGenerics_eq, bind, Except.bind, pure, Except.pure]
-  · -- pointer to an interface-typed variable: the Values involved are of kind Interface
-    cases d with
-    | ptr t' p =>
-      cases p with
-      | none =>
-        simp [cloneTo, MaybeV.isNil, MaybeV.unwrap, valueOf, RV.kind, kindOf, RV.elem, hx, hif, RV.type, rvNew, RV.set,
-          RV.isNil, RV.interface, assertTy, himp', justGenerics_eq, bind, Except.bind, pure, Except.pure]
-      | some b =>
-        obtain ⟨y, hy, _⟩ := hwd t' b rfl
-        have ht' : t' = t := hsame t' b rfl
-        subst ht'
-        have hb : b < h.length := by
-          rcases Nat.lt_or_ge b h.length with h1 | h1
-          · exact h1
-          · rw [List.getElem?_eq_none h1] at hy; cases hy
-        have hfr' : (h ++ [x])[b]? = some y := by rw [List.getElem?_append_left hb]; exact hy
-        simp [cloneTo, MaybeV.isNil, MaybeV.unwrap, valueOf, RV.kind, kindOf, RV.elem, hx, hif, RV.type, rvNew, RV.set,
-          RV.isNil, hfr', justGenerics_eq, bind, Except.bind, pure, Except.pure]
-    | _ =>
-      simp [cloneTo, MaybeV.isNil, MaybeV.unwrap, valueOf, RV.kind, kindOf, RV.elem, hx, hif, RV.type, rvNew, RV.set,
-        RV.isNil, RV.interface, assertTy, himp', justGenerics_eq, bind, Except.bind, pure, Except.pure]
 
 /-- what a caller must respect for the two observers that take more than a plain value: a `FlatMap` callback that
     itself returns, and a `CloneTo` destination that is a live pointer of the same pointer type as `v` (or nil /
